@@ -30,7 +30,7 @@ func convertReflectValueToType(rv reflect.Value, rt reflect.Type) (reflect.Value
 		// if reflect.Type is interface or the types match, return the provided reflect.Value
 		return rv, nil
 	}
-	if rv.Type().ConvertibleTo(rt) {
+	if rv.Type().ConvertibleTo(rt) && !isSliceToArray(rv, rt) {
 		// if reflect can covert, do that conversion and return
 		return rv.Convert(rt), nil
 	}
@@ -99,6 +99,16 @@ func convertReflectValueToType(rv reflect.Value, rt reflect.Type) (reflect.Value
 	// TODO: need to handle the case where either rv or rt are a pointer but not both
 
 	return rv, errInvalidTypeConversion
+}
+
+// isSliceToArray returns true for the conversion of a slice to an array or to a pointer to an array.
+// reflect reports these as convertible, but the conversion panics when the slice is too short,
+// slices are converted to arrays by convertSliceOrArray instead.
+func isSliceToArray(rv reflect.Value, rt reflect.Type) bool {
+	if rv.Kind() != reflect.Slice {
+		return false
+	}
+	return rt.Kind() == reflect.Array || (rt.Kind() == reflect.Ptr && rt.Elem().Kind() == reflect.Array)
 }
 
 // convertSliceOrArray trys to covert the reflect.Value slice or array to the slice or array reflect.Type
